@@ -155,6 +155,12 @@ critical section of `filtersInitializerLock` that drains the channel. -/
 theorem C05_program_no_blocking_under_lock : chanOpsJustified chanOps = true := by
   decide +kernel
 
+/-- Obligation 5 (regenerated table): every check-then-act pattern across two
+critical sections of the same lock (see `CtaRow`) is in the reviewed baseline.
+A table obligation, like obligation 4: values are outside the lock machine. -/
+theorem C05_program_check_then_act_reviewed : ctaReviewed ctaRows = true := by
+  decide +kernel
+
 /-- Every goroutine set whose blocking nested acquisitions are (non-finding)
 edges of the table and whose acquisitions of gated locks come from non-finding
 sites of the table, with balanced releases, is free of deadlocks and wait-for
